@@ -1,6 +1,7 @@
 """C17 - case and platform flags select a consistent matching mode (metamorphic relations on wcmatch itself)."""
 import itertools
 
+import os
 from ..runner import Outcome, HarnessError
 from .. import ast as A, ref as R, names as N, lang, util
 from ..util import F, G
@@ -233,11 +234,14 @@ def shards(tier, seed, scale=1.0):
     for s in range(16):
         out.append({'name': 'hyp-%d' % s, 'kind': 'hyp', 'seed': seed * 1000 + s, 'n': max(8, int(hyp_n * scale))})
     out.append({'name': 'drives', 'kind': 'drives'})
+    out.append({'name': 'fs', 'kind': 'fs'})
     return out
 
 
 def run_shard(desc):
     k = desc['kind']
+    if k == 'fs':
+        return run_fs(desc)
     if k == 'fn-enum':
         return run_fn_enum(desc)
     if k == 'path-enum':
@@ -247,6 +251,68 @@ def run_shard(desc):
     if k == 'drives':
         return run_drives(desc)
     raise HarnessError(k)
+
+
+def run_fs(desc):
+    """glob() on a tree whose entries collide by case: in case-insensitive mode the result does not depend on how the literal
+    text of the pattern is cased (every case variant of a pattern returns the same set, a superset of the case-sensitive result);
+    in case-sensitive mode a variant returns exactly the entries spelled that way."""
+    from .. import trees as T, fscommon as FC
+    out = Outcome()
+    out.exhaustive = True
+    spec = T.CATALOGUE[12] + [('f', 'Data/x.txt'), ('f', 'data/y.txt'), ('f', 'DATA/z.TXT'), ('f', 'notes'), ('f', 'Notes'), ('d', 'data/Sub'), ('f', 'data/Sub/a'),
+                              ('d', 'Data/sub'), ('f', 'Data/sub/a')]
+    bases = ['data/*.txt', 'data/*', 'notes', 'data/sub/a', 'top/pkg/src/lib/*', '*/pkg/a', 'data', 'top/pkg/src/x', '[d]ata/*.txt', 'd*/y.txt',
+             'data/**', '**/mod.py', 'data/y.txt', 'top/*/src/lib/mod.py']
+
+    def variants(t):
+        vs = {t, t.upper(), t.lower(), t.title(), t.swapcase(), ''.join(c.upper() if i % 2 else c.lower() for i, c in enumerate(t))}
+        return sorted(vs)
+    with FC.built_tree(spec) as (root, _r):
+        on_disk = set()
+        for b_, ds_, fs_ in os.walk(root):
+            for n_ in ds_ + fs_:
+                on_disk.add(os.path.relpath(os.path.join(b_, n_), root))
+        for base in bases:
+            for extra in (0, G.GLOBSTAR, G.GLOBSTAR | G.DOTGLOB, G.MARK):
+                res = {}
+                for v in variants(base):
+                    res[v] = (set(G.glob(v, flags=G.IGNORECASE | extra, root_dir=root)), set(G.glob(v, flags=G.CASE | extra, root_dir=root)),
+                              set(str(p_.relative_to(root)) for p_ in util.WP.Path(root).glob(v, flags=G.IGNORECASE | extra)))
+                    out.evaluations += 3
+                first = variants(base)[0]
+                union_cs = set().union(*[r[1] for r in res.values()])
+                for v, (ri, rc, rp) in res.items():
+                    strip = lambda xs: {x.rstrip('/') for x in xs}
+                    if ri != res[first][0]:
+                        d = sorted(ri ^ res[first][0])[0]
+                        out.violation({'mode': 'fs', 'pattern': v, 'other_spelling': first, 'flags': ['IGNORECASE'], 'extra_flags': extra, 'name': d,
+                                       'relation': 'in case-insensitive mode the glob() result does not depend on the case of the pattern text'},
+                                      bucket=('fs-icase', base))
+                        break
+                    if not rc <= ri:
+                        d = sorted(rc - ri)[0]
+                        out.violation({'mode': 'fs', 'pattern': v, 'flags': ['IGNORECASE'], 'extra_flags': extra, 'name': d,
+                                       'relation': 'the case-insensitive result contains the case-sensitive one'}, bucket=('fs-subset', base))
+                        break
+                    if strip(rp) != strip(ri):
+                        d = sorted(strip(rp) ^ strip(ri))[0]
+                        out.violation({'mode': 'fs', 'pattern': v, 'flags': ['IGNORECASE'], 'extra_flags': extra, 'name': d,
+                                       'relation': 'Path.glob agrees with glob.glob in case-insensitive mode'}, bucket=('fs-pathlib', base))
+                        break
+                    bad = [x for x in ri if x.rstrip('/') not in on_disk]
+                    if bad:
+                        out.violation({'mode': 'fs', 'pattern': v, 'flags': ['IGNORECASE'], 'extra_flags': extra, 'name': bad[0],
+                                       'relation': 'results are spelled as on disk'}, bucket=('fs-spelling', base))
+                        break
+                else:
+                    if not union_cs <= res[first][0]:
+                        out.violation({'mode': 'fs', 'pattern': base, 'flags': ['IGNORECASE'], 'extra_flags': extra, 'name': sorted(union_cs - res[first][0])[0],
+                                       'relation': 'the case-insensitive result contains every case-sensitive variant result'}, bucket=('fs-union', base))
+                if len(res[first][0]) > len(res[first][1]):
+                    out.nontrivial(('fs', base, extra))
+    out.sample({'stream': 'fs', 'patterns': bases, 'variants_each': 6})
+    return out
 
 
 def run_fn_enum(desc):
